@@ -626,6 +626,12 @@ fn default_capacity_sweep(rep: &Report, mode: Mode, fams: &[Pats]) {
     let mut lists: Vec<Pats> = fams.iter().take(8).cloned().collect();
     // a pattern longer than 8 KiB: the capacity becomes 8 x its length
     lists.push(vec![vec![b'q'; 9000], b("ab")]);
+    // patterns as long as / longer than the default capacity itself (64 KiB),
+    // at and around powers of two
+    let huge_from = lists.len();
+    for n in [65535usize, 65536, 65537, 131072] {
+        lists.push(vec![(0..n).map(|i| b'g' + (i % 7) as u8).collect(), b("ab")]);
+    }
     struct W {
         l: usize,
         kind: AhoCorasickKind,
@@ -639,6 +645,48 @@ fn default_capacity_sweep(rep: &Report, mode: Mode, fams: &[Pats]) {
     par_for(rep, items.len(), |i, st| {
         let w = &items[i];
         let pats = &lists[w.l];
+        if w.l >= huge_from {
+            // only the kinds that build quickly for 10^5 states
+            if w.kind == AhoCorasickKind::DFA {
+                return;
+            }
+            let ac = match AhoCorasick::builder().kind(Some(w.kind)).build(pats) {
+                Ok(a) => a,
+                Err(e) => {
+                    rep.machinery(format!("build failed: {}", e));
+                    return;
+                }
+            };
+            let spec = Spec::new(pats.clone(), false);
+            let maxlen = pats[0].len();
+            let cap = (maxlen * 8).max(64 * 1024);
+            let it = Item { only_work: mode == Mode::Work, pats, kind: w.kind, cap, ac: &ac, spec: &spec, reps: rep_tables(pats.len()) };
+            // "ab" before, inside the first maxlen bytes, right after them, far
+            // behind; the long pattern once in the middle
+            let n = 3 * maxlen + 1000;
+            let mut stream = vec![b'.'; n];
+            for at in [10usize, maxlen - 1, maxlen + 1, 2 * maxlen + 500, n - 2] {
+                stream[at..at + 2].copy_from_slice(b"ab");
+            }
+            let at = maxlen + 100;
+            stream[at..at + maxlen].copy_from_slice(&pats[0]);
+            let exp = mem_find_iter_big(&ac, &stream);
+            for sc in [vec![], vec![4093], vec![maxlen, 1, 1]] {
+                aho_corasick::verif::set_stream_buffer_capacity(None);
+                st.add("default_capacity_runs", 1);
+                st.add("huge_pattern_stream_runs", 1);
+                match mode {
+                    Mode::Find | Mode::Work => {
+                        it.run_find_cap(rep, st, &stream, &sc, &exp, false);
+                    }
+                    Mode::Replace => {
+                        it.run_replace_cap(rep, st, &stream, &sc, &exp, false);
+                    }
+                    Mode::Faults => {}
+                }
+            }
+            return;
+        }
         let ac = match AhoCorasick::builder().kind(Some(w.kind)).build(pats) {
             Ok(a) => a,
             Err(e) => {
@@ -693,6 +741,67 @@ fn default_capacity_sweep(rep: &Report, mode: Mode, fams: &[Pats]) {
             }
         }
     });
+}
+
+/// A searcher built from NO patterns (longest pattern 0: the roll buffer's
+/// minimum is clamped to 1): every stream, every small capacity and the
+/// default one, every short read schedule: no match, output == input.
+fn zero_pattern_sweep(rep: &Report, mode: Mode) {
+    if mode == Mode::Faults {
+        return;
+    }
+    let pats: Pats = vec![];
+    let items: Vec<AhoCorasickKind> = KINDS.to_vec();
+    par_for(rep, items.len(), |i, st| {
+        let kind = items[i];
+        let ac = match AhoCorasick::builder().kind(Some(kind)).build(&pats) {
+            Ok(a) => a,
+            Err(e) => {
+                rep.machinery(format!("build of the empty collection failed: {}", e));
+                return;
+            }
+        };
+        let spec = Spec::new(pats.clone(), false);
+        let mut streams: Vec<Vec<u8>> = vec![vec![], b("x"), b("xy"), b("xyz"), vec![b'q'; 9], vec![b'.'; 100]];
+        streams.push((0..70_000usize).map(|k| b'a' + (k % 13) as u8).collect());
+        for stream in &streams {
+            let scheds: Vec<Vec<usize>> = if stream.len() <= 3 {
+                // every composition of the length
+                let mut v = vec![vec![]];
+                for a in 1..=stream.len() {
+                    v.push(vec![a]);
+                    for b2 in 1..=stream.len() - a {
+                        v.push(vec![a, b2]);
+                    }
+                }
+                v
+            } else {
+                vec![vec![], vec![1], vec![1, 1, 1], vec![2, 1], vec![stream.len() - 1]]
+            };
+            for cap in [0usize, 2, 3, 8] {
+                if cap != 0 && stream.len() > 200 {
+                    continue;
+                }
+                let it = Item { only_work: mode == Mode::Work, pats: &pats, kind, cap: cap.max(2), ac: &ac, spec: &spec, reps: rep_tables(0) };
+                for sc in &scheds {
+                    if cap != 0 && sc.iter().any(|&x| x != 1) {
+                        continue; // with a tiny buffer only single-byte reads always fit
+                    }
+                    st.add("zero_pattern_runs", 1);
+                    match mode {
+                        Mode::Find | Mode::Work => {
+                            it.run_find_cap(rep, st, stream, sc, &[], cap != 0);
+                        }
+                        Mode::Replace => {
+                            it.run_replace_cap(rep, st, stream, sc, &[], cap != 0);
+                        }
+                        Mode::Faults => {}
+                    }
+                }
+            }
+        }
+    });
+    aho_corasick::verif::set_stream_buffer_capacity(None);
 }
 
 fn mem_find_iter_big(ac: &AhoCorasick, stream: &[u8]) -> Vec<M> {
@@ -887,6 +996,7 @@ pub fn run(rep: &Report, mode: Mode) -> i32 {
     });
     aho_corasick::verif::set_stream_buffer_capacity(None);
     default_capacity_sweep(rep, mode, &fams);
+    zero_pattern_sweep(rep, mode);
     let execs = rep.get("executions");
     if mode == Mode::Work {
         // evidence is written by the caller (C19 combines E1 and this sweep)
